@@ -61,6 +61,65 @@ def read():
     responds = any(isinstance(n, ast.Call) and ast.unparse(n.func) == "self._respond_bad_request" for s in hb for n in ast.walk(s))
     continues = isinstance(hb[-1], ast.Continue)
     out["parse_failure"] = ("reply_bad_request" if responds else "silent") + ("_and_continue" if continues else "_and_fall_through")
+    # nothing that can raise stands between the guarded parse and the dispatch: the statement after the try is the match
+    def body_with(node, target):
+        for n in ast.walk(node):
+            for field in ("body", "orelse", "finalbody"):
+                b = getattr(n, field, None)
+                if isinstance(b, list) and target in b:
+                    return b
+        return None
+    blk = body_with(rg, t)
+    if blk is None or m[0] not in blk:
+        out["after_parse"] = "match_not_beside_try"
+    else:
+        between = blk[blk.index(t) + 1:blk.index(m[0])]
+        out["after_parse"] = "match_follows_try" if not between else "statements_between:" + ";".join(type(x).__name__ for x in between)
+    # the parameter table of _validate_game_action and the shape of its checks
+    vg = find_func(gc, "_validate_game_action")
+    tables = [n for n in ast.walk(vg) if isinstance(n, ast.Assign) and ast.unparse(n.targets[0]) == "required_parameters"]
+    if len(tables) != 1 or not isinstance(tables[0].value, ast.Dict):
+        raise TranslationError("_validate_game_action: expected one dictionary literal `required_parameters`")
+    req = []
+    for k, v in zip(tables[0].value.keys, tables[0].value.values):
+        if not (isinstance(k, ast.Attribute) and ast.unparse(k.value) == "ActionType" and isinstance(v, ast.Dict)):
+            raise TranslationError("_validate_game_action: table entry is not ActionType.<member>: {...}")
+        ps = []
+        for pk, pv in zip(v.keys, v.values):
+            if not (isinstance(pk, ast.Constant) and isinstance(pk.value, str) and isinstance(pv, ast.Name)):
+                raise TranslationError("_validate_game_action: parameter entry is not '<name>': <Type>")
+            ps.append((pk.value, pv.id))
+        req.append((k.attr, ps))
+    out["required"] = req
+    fors = [n for n in vg.body if isinstance(n, ast.For)]
+    shape = []
+    if len(fors) == 1 and ast.unparse(fors[0].iter) == "required_parameters[action.type].items()":
+        ftxt = ast.unparse(fors[0])
+        if "if not isinstance(action.parameters.get(name), expected_type):" in ftxt:
+            shape.append("isinstance_of_get")
+        if "hash(action.parameters[name])" in ftxt and "except TypeError" in ftxt:
+            shape.append("hashable")
+        rets = [n for n in ast.walk(fors[0]) if isinstance(n, ast.Return)]
+        if rets and all(r.value is not None and not (isinstance(r.value, ast.Constant) and r.value.value is None) for r in rets):
+            shape.append("returns_reason")
+    if isinstance(vg.body[-1], ast.Return) and isinstance(vg.body[-1].value, ast.Constant) and vg.body[-1].value.value is None:
+        shape.append("none_when_valid")
+    out["validation_shape"] = "_".join(shape) or "unknown"
+    # _process_game_action: membership, then validation, then (only then) anything that counts or plays the action
+    pg = find_func(gc, "_process_game_action")
+    idx = {"member": None, "validate": None, "refuse": None, "effect": None}
+    for i, st in enumerate(pg.body):
+        txt = ast.unparse(st)
+        if idx["member"] is None and "agent_addr not in self.agents" in txt and "_respond_bad_request" in txt and "return" in txt:
+            idx["member"] = i
+        if idx["validate"] is None and "self._validate_game_action(action)" in txt:
+            idx["validate"] = i
+        if idx["refuse"] is None and idx["validate"] is not None and i > idx["validate"] and "_respond_bad_request" in txt and "return" in txt:
+            idx["refuse"] = i
+        if idx["effect"] is None and ("self._agent_steps" in txt or "self.step(" in txt or "_agent_last_action" in txt or "_agent_states[" in txt):
+            idx["effect"] = i
+    ok = (None not in idx.values()) and idx["member"] < idx["validate"] < idx["refuse"] < idx["effect"]
+    out["validation_order"] = "member_validate_refuse_then_effects" if ok else "unknown:" + ",".join(f"{k}={v}" for k, v in idx.items())
     # _respond_bad_request must put a BAD_REQUEST message on the sender's queue
     rb = find_func(gc, "_respond_bad_request")
     txt = ast.unparse(rb)
@@ -93,7 +152,9 @@ def emit(d):
          "From Coq Require Import String List.", "From NSG Require Import Base.Prelude.", "Import ListNotations.", "Open Scope string_scope.", ""]
     L.append("Definition gen_dispatch_arms : list (atype * string * bool * bool) := [" +
              "; ".join(f"({n}, {coq_str(h)}, {'true' if a else 'false'}, {'true' if b else 'false'})" for n, h, a, b in d["arms"]) + "].")
-    for k in ("default", "parse_failure", "conn_failure", "conn_cleanup", "admission", "limit"):
+    L.append("Definition gen_required_params : list (atype * list (string * string)) := [" +
+             "; ".join(f"({t}, [" + "; ".join(f"({coq_str(a)}, {coq_str(b)})" for a, b in ps) + "])" for t, ps in d["required"]) + "].")
+    for k in ("default", "parse_failure", "after_parse", "validation_shape", "validation_order", "conn_failure", "conn_cleanup", "admission", "limit"):
         L.append(f"Definition gen_{k} : string := {coq_str(d[k])}.")
     L.append("")
     return "\n".join(L)
